@@ -261,6 +261,74 @@ fn sizes(o: &Opts) -> Vec<(usize, usize)> {
     v
 }
 
+fn comp_events(sh: &mut Shards, c: &Cfg, px: &[[f32; 3]], w: usize, h: usize, rng: &mut Rng) {
+    let e = |x: yuvxyb::ConversionError| crate::frames::err_name_conv(x).to_string();
+    let (t, p) = (tc(c.tc), cp(c.cp));
+    let fl = |s: &mut String, key: &str, r: &Result<Px, String>| match r {
+        Ok(d) => {
+            let _ = write!(s, ",\"r{key}\":\"ok\"");
+            bits(s, key, d);
+        }
+        Err(x) => {
+            let _ = write!(s, ",\"r{key}\":\"{x}\",\"{key}\":[]");
+        }
+    };
+    let yv = |s: &mut String, key: &str, r: &Result<[Vec<u16>; 3], String>| match r {
+        Ok(d) => {
+            let _ = write!(s, ",\"r{key}\":\"ok\"");
+            codes(s, key, d);
+        }
+        Err(x) => {
+            let _ = write!(s, ",\"r{key}\":\"{x}\",\"{key}\":[]");
+        }
+    };
+    let head = |call: &str| format!("\"ev\":\"comp\",\"call\":\"{call}\",\"cfg\":{},\"w\":{w},\"h\":{h}", c.json());
+    let rgb = || Rgb::new(px.to_vec(), w, h, t, p).map_err(|_| "ctor".to_string());
+    let lin = || LinearRgb::new(px.to_vec(), w, h).map_err(|_| "ctor".to_string());
+    let xyb = || lin().map(Xyb::from);
+    // RgbToXyb = RgbToLin ; LinToXyb
+    let mut s = head("RgbToXyb");
+    fl(&mut s, "direct", &crate::util::guard_s(|| Xyb::try_from(rgb()?).map(|x| x.data().to_vec()).map_err(e)));
+    fl(&mut s, "chain", &crate::util::guard_s(|| LinearRgb::try_from(rgb()?).map(|l| Xyb::from(l).data().to_vec()).map_err(e)));
+    sh.emit(&s);
+    // XybToRgb = XybToLin ; LinToRgb
+    let mut s = head("XybToRgb");
+    fl(&mut s, "direct", &crate::util::guard_s(|| Rgb::try_from((xyb()?, t, p)).map(|x| x.data().to_vec()).map_err(e)));
+    fl(&mut s, "chain", &crate::util::guard_s(|| Rgb::try_from((LinearRgb::from(xyb()?), t, p)).map(|x| x.data().to_vec()).map_err(e)));
+    sh.emit(&s);
+    // LinToYuv = LinToRgb ; RgbToYuv      XybToYuv = XybToLin ; LinToYuv
+    macro_rules! enc {
+        ($t:ty) => {{
+            let mut s = head("LinToYuv");
+            yv(&mut s, "direct", &crate::util::guard_s(|| Yuv::<$t>::try_from((lin()?, c.yuv_config())).map(|y| read_yuv(&y)).map_err(e)));
+            yv(&mut s, "chain", &crate::util::guard_s(|| Yuv::<$t>::try_from((&Rgb::try_from((lin()?, t, p)).map_err(e)?, c.yuv_config())).map(|y| read_yuv(&y)).map_err(e)));
+            sh.emit(&s);
+            let mut s = head("XybToYuv");
+            yv(&mut s, "direct", &crate::util::guard_s(|| Yuv::<$t>::try_from((xyb()?, c.yuv_config())).map(|y| read_yuv(&y)).map_err(e)));
+            yv(&mut s, "chain", &crate::util::guard_s(|| Yuv::<$t>::try_from((LinearRgb::from(xyb()?), c.yuv_config())).map(|y| read_yuv(&y)).map_err(e)));
+            sh.emit(&s);
+            // YuvToLin = YuvToRgb ; RgbToLin      YuvToXyb = YuvToLin ; LinToXyb
+            let maxc = (1u64 << c.n) - 1;
+            let (cw, ch) = (w >> c.ssx, h >> c.ssy);
+            let planes: [Vec<u16>; 3] = [(0..w * h).map(|_| rng.below(maxc + 1) as u16).collect(), (0..cw * ch).map(|_| rng.below(maxc + 1) as u16).collect(), (0..cw * ch).map(|_| rng.below(maxc + 1) as u16).collect()];
+            let yuv = || try_build_yuv::<$t>(&planes, w, h, c, [(0, 0); 3], None);
+            let mut s = head("YuvToLin");
+            fl(&mut s, "direct", &crate::util::guard_s(|| LinearRgb::try_from(&yuv()?).map(|x| x.data().to_vec()).map_err(e)));
+            fl(&mut s, "chain", &crate::util::guard_s(|| LinearRgb::try_from(Rgb::try_from(&yuv()?).map_err(e)?).map(|x| x.data().to_vec()).map_err(e)));
+            sh.emit(&s);
+            let mut s = head("YuvToXyb");
+            fl(&mut s, "direct", &crate::util::guard_s(|| Xyb::try_from(&yuv()?).map(|x| x.data().to_vec()).map_err(e)));
+            fl(&mut s, "chain", &crate::util::guard_s(|| LinearRgb::try_from(&yuv()?).map(|l| Xyb::from(l).data().to_vec()).map_err(e)));
+            sh.emit(&s);
+        }};
+    }
+    if c.n == 8 {
+        enc!(u8)
+    } else {
+        enc!(u16)
+    }
+}
+
 pub fn gen_c11(sh: &mut Shards, o: &Opts) -> serde_json::Value {
     let mut rng = Rng::new(o.seed, 0x1111);
     let mut n = 0u64;
@@ -331,6 +399,17 @@ pub fn gen_c11(sh: &mut Shards, o: &Opts) -> serde_json::Value {
             n += 1;
             pixels += (w * h) as u64;
         }
+    }
+    // composite conversions against the chain of single stages they are specified as (Yuvxyb.tla: Then(stage, stage)):
+    // both outcomes and both results are logged; TLC compares them bit for bit.  Not one of the listed properties - a
+    // difference is reported as SPEC-DRIFT, never as a violation.
+    for k in 0..(if o.thorough { 600usize } else { 120 }) {
+        let (w, h) = (2 + 2 * (k % 5), 2 + 2 * ((k / 5) % 3));
+        let (sx, sy) = subs[k % 6];
+        let c = Cfg { mc: MC_STD[k % 7], tc: TC_SUP[(k * 5 + 1) % 14], cp: CP_SUP[(k * 3 + 2) % 11], full: k % 2 == 0, n: 8 + (k % 9) as u8, ssx: if w % 4 == 0 { sx } else { sx.min(1) }, ssy: if h % 4 == 0 { sy } else { sy.min(1) } };
+        let px: Px = (0..w * h).map(|_| [rng.unit() as f32, rng.unit() as f32, rng.unit() as f32]).collect();
+        comp_events(sh, &c, &px, w, h, &mut rng);
+        n += 6;
     }
     // large frames: the whole-image result at probed positions against the 1x1 conversions of those pixels, and a repeat
     for (k, call) in ["YuvToRgb", "YuvToXyb", "RgbToLin", "LinToRgb", "LinToXyb", "XybToLin", "LinToHsl"].iter().enumerate() {
